@@ -12,20 +12,29 @@ import (
 
 // Hand-assembled recorder contract used as the callee of IBC memo calls (no solc here).
 //
-//	slot0 = CALLER, slot1 += 1, slot2 = CALLVALUE
-//	calldata[0] == 1 -> REVERT (after the writes: a late failure)
-//	calldata[0] == 2 -> spin until out of gas
-//	otherwise        -> STOP
+//	slot0 = CALLER, slot1 += 1, slot2 = CALLVALUE, then by calldata[0]:
+//	1 -> REVERT (after the writes: a late failure)      3 -> INVALID opcode
+//	2 -> spin until out of gas                          4 -> REVERT with 32 bytes of data
+//	otherwise -> STOP
 var ibcCalleeRuntime = []byte{
 	0x33, 0x60, 0x00, 0x55, // 00 CALLER PUSH1 0 SSTORE
 	0x60, 0x01, 0x54, 0x60, 0x01, 0x01, 0x60, 0x01, 0x55, // 04 slot1++
 	0x34, 0x60, 0x02, 0x55, // 0d CALLVALUE PUSH1 2 SSTORE
 	0x60, 0x00, 0x35, 0x60, 0xf8, 0x1c, // 11 first calldata byte
-	0x80, 0x60, 0x01, 0x14, 0x60, 0x26, 0x57, // 17 ==1 -> revert
-	0x60, 0x02, 0x14, 0x60, 0x2c, 0x57, // 1e ==2 -> loop
-	0x00, 0x00, // 24 STOP
-	0x5b, 0x60, 0x00, 0x60, 0x00, 0xfd, // 26 revert
-	0x5b, 0x60, 0x2c, 0x56, // 2c loop
+	0x80, 0x60, 0x01, 0x14, 0x60, 0x34, 0x57, // 17 ==1 -> revert
+	0x80, 0x60, 0x02, 0x14, 0x60, 0x3a, 0x57, // 1e ==2 -> loop
+	0x80, 0x60, 0x03, 0x14, 0x60, 0x3e, 0x57, // 25 ==3 -> invalid
+	0x80, 0x60, 0x04, 0x14, 0x60, 0x40, 0x57, // 2c ==4 -> revert with data
+	0x00,                               // 33 STOP
+	0x5b, 0x60, 0x00, 0x60, 0x00, 0xfd, // 34 revert
+	0x5b, 0x60, 0x3a, 0x56, // 3a loop
+	0x5b, 0xfe, // 3e invalid
+	0x5b, 0x60, 0x2a, 0x60, 0x00, 0x52, 0x60, 0x20, 0x60, 0x00, 0xfd, // 40 revert(0,32) with 0x2a
+}
+
+// ibcCalleeFails: does the recorder contract fail for this call data?
+func ibcCalleeFails(data []byte) bool {
+	return len(data) > 0 && data[0] >= 1 && data[0] <= 4
 }
 
 func ibcCalleeInit() []byte {
